@@ -399,6 +399,9 @@ class Printer:
 
     def peffects(self, effs, extra):
         """effects of one action (+ extra already printed effects) -> text or None"""
+        add = [repr(ef) for ef in effs if ef["kind"] != "assign"]
+        if len(set(add)) < len(add):
+            self.f("effect:repeated-additive-effect")
         groups = []  # (forall vars repr, cond repr) -> [core]
         for ef in effs:
             key = (repr(ef["forall"]), repr(ef["c"]))
@@ -685,7 +688,7 @@ def pick_style(rng, slice_, i=0):
 BORDER = ["empty-pre-omit", "untyped", "obj-param", "neg-literal", "neg-init", "adl-only", "metric-bare", "bare-in-eq", "binary-minus", "rich-goal"]
 # surface forms inside the common fragment on which the two readers are known to disagree (one dedicated kind each, so that
 # the main slices stay free of them and a new disagreement is not hidden behind a known signature)
-KNOWN = ["empty-pre-paren", "undef-num", "dup-operand", "dec"]
+KNOWN = ["empty-pre-paren", "undef-num", "dup-operand", "dec", "dup-effect"]
 
 
 def _map_consts(P, fn):
@@ -722,7 +725,7 @@ def make_texts(rng, counts):
             numeric = slice_ == "num" or (slice_ in ("case", "border", "known") and rng.random() < 0.5)
             style = pick_style(rng, slice_, i)
             b = style.get("border", "")
-            if b in ("undef-num", "neg-literal", "binary-minus", "bare-in-eq", "metric-bare", "dup-operand", "dec"):
+            if b in ("undef-num", "neg-literal", "binary-minus", "bare-in-eq", "metric-bare", "dup-operand", "dec", "dup-effect"):
                 numeric = True
             g = SeedGen(rng, plain_goal=0.0 if b == "rich-goal" else 1.0, keep_minus=b == "binary-minus", allow_dup=b == "dup-operand",
                         **dict(MASK, numeric=numeric, metric="any" if (rng.random() < 0.6 or b == "metric-bare") else None))
@@ -755,6 +758,25 @@ def make_texts(rng, counts):
                 acts = [dict(a, effects=list(a["effects"])) for a in P["actions"]]
                 v = acts[ai]["effects"][ei]["v"]
                 acts[ai]["effects"][ei] = dict(acts[ai]["effects"][ei], v=upj.E(rng.choice(["plus", "times"]), [v, v]))
+                P["actions"] = acts
+            # the same increase / decrease written twice in one action: kept for its dedicated kind only
+            acts = []
+            for a in P["actions"]:
+                effs, seen = [], set()
+                for ef in a["effects"]:
+                    if repr(ef) in seen and ef["kind"] != "assign":
+                        continue
+                    seen.add(repr(ef))
+                    effs.append(ef)
+                acts.append(dict(a, effects=effs))
+            P["actions"] = acts
+            if b == "dup-effect":
+                spots = [(ai, ei) for ai, a in enumerate(P["actions"]) for ei, ef in enumerate(a["effects"]) if ef["kind"] != "assign"]
+                if not spots:
+                    continue
+                ai, ei = rng.choice(spots)
+                acts = [dict(a, effects=list(a["effects"])) for a in P["actions"]]
+                acts[ai]["effects"].append(acts[ai]["effects"][ei])
                 P["actions"] = acts
             if b == "empty-pre-paren":
                 P["actions"] = [dict(a, pre=[]) if j == 0 else a for j, a in enumerate(P["actions"])]
@@ -1037,43 +1059,39 @@ def judge_fragment(ctx, recs):
 
 
 def judge_bisim(ctx, recs, todo, D):
-    """Bisim on the pairs PddlReaders selected, grouped by depth bound -> fails [(cid, clause, action)]"""
-    groups = {}
+    """Bisim on the pairs PddlReaders selected (one batch, per-pair depth bound) -> fails [(cid, clause, action)]"""
+    batch = []
     for rec in recs:
         if rec["cid"] not in todo:
             continue
         up, ai = rec["reads"]["up"], rec["reads"]["ai"]
         d = D if up["safe"] >= D else min(up["safe"], 0 if ctx.quick else 1)
-        groups.setdefault(d, []).append({"cid": rec["cid"], "A": up["P"], "B": ai["P"], "akeys": upj.keys_of(up["P"]),
-                                         "bkeys": upj.keys_of(ai["P"]), "depth": d, "length_as_unit_costs": True,
-                                         "final_value_metric": True})
-    fails, n = [], 0
-    for depth in sorted(groups):
-        batch = groups[depth]
-        d = ctx.sub("bisim-%d" % depth)
-        path = os.path.join(d, "batch.ndjson")
-        tlc.write_ndjson(path, batch)
-        res = tlc.run_tlc("Bisim", CFG_BISIM, d, env={"BATCH": path}, workers=8, timeout=3000, heap="12g")
-        if res.error or res.violated:
-            raise MachineryError("Bisim failed: %s %s" % (res.violated, (res.error or "")[-3000:]))
-        m = re.search(r"Finished computing initial states: (\d+) distinct state", res.stdout)
-        if not m or int(m.group(1)) != len(batch):
-            raise MachineryError("Bisim started from %s of %d pairs" % (m.group(1) if m else "?", len(batch)))
-        ctx.add_tlc("Bisim-depth-%d" % depth, res)
-        n += len(batch)
-        seen = set()
-        for p in res.printed:
-            if p and p[0] == "FAIL":
-                k = (p[1], p[2], p[3])
-                if k not in seen:
-                    seen.add(k)
-                    fails.append(k)
+        batch.append({"cid": rec["cid"], "A": up["P"], "B": ai["P"], "akeys": upj.keys_of(up["P"]), "bkeys": upj.keys_of(ai["P"]),
+                      "depth": D, "own_depth": d, "length_as_unit_costs": True, "final_value_metric": True})
+    fails, n = [], len(batch)
+    d = ctx.sub("bisim")
+    path = os.path.join(d, "batch.ndjson")
+    tlc.write_ndjson(path, batch)
+    res = tlc.run_tlc("Bisim", CFG_BISIM, d, env={"BATCH": path}, workers=8, timeout=3000, heap="6g")
+    if res.error or res.violated:
+        raise MachineryError("Bisim failed: %s %s" % (res.violated, (res.error or "")[-3000:]))
+    m = re.search(r"Finished computing initial states: (\d+) distinct state", res.stdout)
+    if not m or int(m.group(1)) != len(batch):
+        raise MachineryError("Bisim started from %s of %d pairs" % (m.group(1) if m else "?", len(batch)))
+    ctx.add_tlc("Bisim", res)
+    seen = set()
+    for p in res.printed:
+        if p and p[0] == "FAIL":
+            k = (p[1], p[2], p[3])
+            if k not in seen:
+                seen.add(k)
+                fails.append(k)
     return fails, n
 
 
 # clause family -> the surface-form features a signature is keyed on (when present in the text; for the clauses about one
 # action: in the text-level features or in that action's features)
-DIVERGENT = ["pre:()", "arith:repeated-operand", "num:non-dyadic-decimal", "init:numeric-fluent-without-value"]
+DIVERGENT = ["pre:()", "arith:repeated-operand", "effect:repeated-additive-effect", "num:non-dyadic-decimal", "init:numeric-fluent-without-value"]
 ACTION_CLAUSES = ("applicability", "successor-differs", "action-cost-differs")
 
 
@@ -1110,12 +1128,12 @@ def run(ctx):
     t0 = time.time()
     phases = {}
     q = ctx.quick
-    counts = [("cls", 22), ("num", 26), ("case", 8), ("border", 10), ("known", 8)] if q else \
+    counts = [("cls", 18), ("num", 22), ("case", 6), ("border", 10), ("known", 10)] if q else \
              [("cls", 300), ("num", 420), ("case", 80), ("border", 100), ("known", 80)]
     D = 3 if q else 4
     texts = make_texts(ctx.rng, counts)
     work = ctx.sub("texts")
-    maxga = 300 if q else 4000
+    maxga = 150 if q else 4000
     jobs = [(i + 1, sl, dom, prob, work, D, maxga) for i, (sl, P, dom, prob, feats, af) in enumerate(texts)]
     meta = {i + 1: {"slice": sl, "seed": P, "domain_pddl": dom, "problem_pddl": prob, "features": feats, "action_features": af}
             for i, (sl, P, dom, prob, feats, af) in enumerate(texts)}
